@@ -46,14 +46,13 @@ Lemma ns_per_s_ns : ns_per_s = ns. Proof. reflexivity. Qed.
 Ltac zlia := rewrite ?ns_val in *; lia.
 
 (* ---- the published count ---- *)
-Definition count (steps : list Z) (t : Z) : Z :=
-  Z.of_nat (length (filter (fun s => s * ns <=? t) steps)).
+Notation count := count_steps.
 
 Lemma count_cons s r t : count (s :: r) t = (if s * ns <=? t then 1 else 0) + count r t.
-Proof. unfold count. cbn [filter]. destruct (s * ns <=? t); cbn [length]; zlia. Qed.
+Proof. unfold count_steps. cbn [filter]. destruct (s * ns <=? t); cbn [length]; zlia. Qed.
 
 Lemma count_nonneg steps t : 0 <= count steps t.
-Proof. unfold count. zlia. Qed.
+Proof. unfold count_steps. zlia. Qed.
 
 Lemma count_le_length steps t : count steps t <= Z.of_nat (length steps).
 Proof.
@@ -75,7 +74,7 @@ Proof.
 Qed.
 
 (* [gps_minus_utc t] is [count leap_steps t] unfolded: expose the common raw form *)
-Ltac raw_count := unfold gps_minus_utc, count in *.
+Ltac raw_count := unfold gps_minus_utc in *.
 
 (* syntactic replacement of the specification's epoch by the dumped one *)
 Ltac use_epoch :=
@@ -90,7 +89,7 @@ Lemma offset_fold steps t : forall acc,
 Proof.
   set (f := fun (off : Z) (e : Z * Z) => if cond_to_fixed (fst e) (snd e) t then wrap64 (off + snd e) else off).
   induction steps as [|s r IH]; intros acc H0 H1.
-  - cbn. unfold count. cbn. lia.
+  - cbn. unfold count_steps. cbn. lia.
   - cbn [map fold_left]. rewrite count_cons.
     cbn [length] in H1. rewrite Nat2Z.inj_succ in H1.
     assert (Hf : f acc (entry_of_step s) = if s * ns <=? t then wrap64 (acc + ns) else acc).
@@ -106,7 +105,8 @@ Qed.
 (* +- 2^62 ns (146 years) around the GPS epoch: 1833-11 .. 2126-02 *)
 Definition utc_range (t : Z) : Prop :=
   gps_epoch_ns - 4611686018427387904 <= t <= gps_epoch_ns + 4611686018427387904.
-Definition dur_range (d : Z) : Prop := - 4611686018427387904 <= d <= 4611686018427387904.
+(* durations: |d| <= 4.6e18 ns (145 years; 18 s of slack below 2^62 for the leap corrections) *)
+Definition dur_range (d : Z) : Prop := - 4600000000000000000 <= d <= 4600000000000000000.
 
 (* clause "offset = published count": the conversion IS the specified one *)
 Theorem to_gps_spec t : utc_range t -> to_gps_fixed t = spec_to_gps t.
@@ -170,6 +170,9 @@ Qed.
 Lemma Forall_impl' {A} (P Q : A -> Prop) l : (forall a, P a -> Q a) -> Forall P l -> Forall Q l.
 Proof. intros H F. eapply Forall_impl; eauto. Qed.
 
+Lemma from_gps_fixed_fold d : from_gps_fixed d = from_fold leap_steps (gps_epoch_ns + d).
+Proof. unfold from_gps_fixed, from_gps_with, from_fold. rewrite table_published. reflexivity. Qed.
+
 (* UTC -> GPS -> UTC *)
 Lemma from_fold_count steps : StronglySorted Z.lt steps ->
   forall t, from_fold steps (t + ns * count steps t) = t.
@@ -189,9 +192,9 @@ Qed.
 Theorem utc_gps_utc t : utc_range t -> from_gps_fixed (to_gps_fixed t) = t.
 Proof.
   intros H. rewrite to_gps_spec by assumption.
-  unfold from_gps_fixed, from_gps_with. rewrite table_published. fold (from_fold leap_steps (gps_epoch_ns + spec_to_gps t)).
-  unfold spec_to_gps. use_epoch. rewrite gps_minus_utc_count.
-  replace (gps_epoch_ns + (t - gps_epoch_ns + count leap_steps t * ns)) with (t + ns * count leap_steps t) by zlia.
+  rewrite from_gps_fixed_fold.
+  unfold spec_to_gps. use_epoch. raw_count.
+  replace (gps_epoch_ns + (t - gps_epoch_ns + count leap_steps t * ns)) with (t + ns * count leap_steps t) by lia.
   apply from_fold_count, leap_steps_sorted.
 Qed.
 
@@ -243,15 +246,14 @@ Theorem gps_utc_gps_general d : dur_range d ->
   to_gps_fixed (from_gps_fixed d) = d + (if in_inserted_leap_second d then ns else 0).
 Proof.
   intros [Hl Hu].
-  assert (Hf : from_gps_fixed d = from_fold leap_steps (gps_epoch_ns + d)).
-  { unfold from_gps_fixed, from_gps_with. rewrite table_published. reflexivity. }
+  pose proof (from_gps_fixed_fold d) as Hf.
   pose proof (from_fold_bounds leap_steps (gps_epoch_ns + d)) as Hb. rewrite leap_steps_length in Hb.
-  pose proof ns_val as Hn.
-  rewrite to_gps_spec by (unfold utc_range; rewrite Hf; cbn in Hb |- *; zlia).
-  rewrite Hf. unfold spec_to_gps. use_epoch. rewrite gps_minus_utc_count.
+  change (Z.of_nat 18) with 18 in Hb.
+  rewrite to_gps_spec by (unfold utc_range; rewrite Hf; zlia).
+  rewrite Hf. unfold spec_to_gps.
   pose proof (round_trip_fold leap_steps leap_steps_sorted (gps_epoch_ns + d) 1) as H. cbv zeta in H.
-  replace (gps_epoch_ns + d + (1 - 1) * ns) with (gps_epoch_ns + d) in H by zlia.
-  unfold in_inserted_leap_second. rewrite <- epoch_published. zlia.
+  replace (gps_epoch_ns + d + (1 - 1) * ns) with (gps_epoch_ns + d) in H by lia.
+  unfold in_inserted_leap_second. use_epoch. raw_count. lia.
 Qed.
 
 Theorem gps_utc_gps d : dur_range d -> in_inserted_leap_second d = false ->
@@ -264,11 +266,18 @@ Theorem from_gps_spec d : dur_range d -> in_inserted_leap_second d = false ->
 Proof.
   intros H E. rewrite <- (gps_utc_gps d H E) at 2. symmetry. apply to_gps_spec.
   destruct H as [Hl Hu]. unfold utc_range.
-  assert (Hf : from_gps_fixed d = from_fold leap_steps (gps_epoch_ns + d)).
-  { unfold from_gps_fixed, from_gps_with. rewrite table_published. reflexivity. }
+  pose proof (from_gps_fixed_fold d) as Hf.
   pose proof (from_fold_bounds leap_steps (gps_epoch_ns + d)) as Hb. rewrite leap_steps_length in Hb.
-  rewrite Hf. pose proof ns_val. cbn in Hb |- *. zlia.
+  change (Z.of_nat 18) with 18 in Hb. rewrite Hf. zlia.
 Qed.
+
+Theorem gps_utc_gps_both d : dur_range d -> in_inserted_leap_second d = false ->
+  to_gps_fixed (from_gps_fixed d) = d /\ spec_to_gps (from_gps_fixed d) = d.
+Proof. intros H E. split; [exact (gps_utc_gps d H E) | exact (from_gps_spec d H E)]. Qed.
+
+Theorem gps_utc_gps_in_leap d : dur_range d -> in_inserted_leap_second d = true ->
+  to_gps_fixed (from_gps_fixed d) = d + 1000000000.
+Proof. intros H E. rewrite (gps_utc_gps_general d H), E. reflexivity. Qed.
 
 (* ---- the code before the repair applied each offset one second early ---- *)
 (* 2012-06-30 23:59:59.5 UTC: published GPS-UTC is 15 s, the old loop added 16 s *)
@@ -281,6 +290,13 @@ Proof. vm_compute. repeat split; reflexivity. Qed.
 Lemma orig_round_trip_fails :
   let d := 1025136014500000000 in
   in_inserted_leap_second d = false /\ to_gps_orig (from_gps_orig d) = d - ns /\ to_gps_fixed (from_gps_fixed d) = d.
+Proof. vm_compute. repeat split; reflexivity. Qed.
+
+Theorem orig_refuted :
+  (let t := 1341100799500000000 in
+   gps_minus_utc t = 15 /\ to_gps_orig t - (t - gps_epoch_ns) = 16 * 1000000000) /\
+  (let d := 1025136014500000000 in
+   in_inserted_leap_second d = false /\ to_gps_orig (from_gps_orig d) = d - 1000000000).
 Proof. vm_compute. repeat split; reflexivity. Qed.
 
 (* ---- days_from_civil against the calendar written the plain way ---- *)
@@ -297,5 +313,5 @@ Fixpoint calendar_ok (n : nat) (date : Z * Z * Z) (k : Z) : bool :=
 
 (* 1970-01-01 .. 2100-12-31 is 47,847 days; ends on 2101-01-01 = day 47847 *)
 Lemma days_from_civil_calendar :
-  calendar_ok 47847 (1970, 1, 1) 0 = true /\ days_from_civil 2101 1 1 = 47847.
+  calendar_ok (N.to_nat 47847) (1970, 1, 1) 0 = true /\ days_from_civil 2101 1 1 = 47847.
 Proof. vm_compute. split; reflexivity. Qed.
